@@ -1,5 +1,5 @@
 #!/usr/bin/env python3
-"""For every seeded change under /verif/seeded/<id>/: apply it to /repo, run the property's check, restore /repo, and record in
+"""For every seeded change under /verif/seeded/<id>/: apply it in a scratch worktree of /repo HEAD, run the property's check against it (VERIF_REPO), and record in
 meta.json which violation signatures the check reported (detected_by). Evidence of these runs goes to /tmp, never to /verif/evidence."""
 import json
 import os
@@ -18,17 +18,18 @@ for sid in sorted(os.listdir(os.path.join(VERIF, "seeded"))):
         continue
     meta = json.load(open(mp))
     prop = meta["property"]
-    if subprocess.run(["git", "-C", "/repo", "status", "--porcelain", "--untracked-files=no"], capture_output=True, text=True).stdout.strip():
-        sys.exit("/repo is dirty")
-    ap = subprocess.run(["git", "-C", "/repo", "apply", os.path.join(d, "patch.diff")], capture_output=True, text=True)
-    if ap.returncode:
-        print(sid, "patch does not apply:", ap.stderr[:200])
-        continue
+    wt = subprocess.run(["mktemp", "-d", "/tmp/evalwt.XXXXXX"], capture_output=True, text=True).stdout.strip()
+    os.rmdir(wt)
+    subprocess.run(["git", "-C", "/repo", "worktree", "add", "-q", "--detach", wt, "HEAD"], check=True)
     try:
-        env = dict(os.environ, VERIF_EVIDENCE_DIR="/tmp/ev_seeded")
+        ap = subprocess.run(["git", "-C", wt, "apply", os.path.join(d, "patch.diff")], capture_output=True, text=True)
+        if ap.returncode:
+            print(sid, "patch does not apply:", ap.stderr[:200])
+            continue
+        env = dict(os.environ, VERIF_EVIDENCE_DIR="/tmp/ev_seeded", VERIF_REPO=wt)
         p = subprocess.run(["/venv/bin/python", os.path.join(VERIF, "check.py"), prop, "--tier", tier], capture_output=True, text=True, env=env, timeout=7200)
     finally:
-        subprocess.run(["git", "-C", "/repo", "checkout", "--", "."])
+        subprocess.run(["git", "-C", "/repo", "worktree", "remove", "--force", wt])
     sigs = sorted(set(re.findall(r"signature(?: not minimised:|=)\s*([A-Za-z0-9_/=.+-]+)", p.stdout)))
     meta["detected_by"] = {"check": prop, "tier": tier, "exit_code": p.returncode, "violation_signatures": sigs, "verif_commit": head}
     json.dump(meta, open(mp, "w"), indent=1)
